@@ -34,13 +34,13 @@ import (
 	"context"
 	"crypto/tls"
 	"encoding/binary"
+	"encoding/json"
 	"errors"
 	"fmt"
 	"io"
 	"math/rand/v2"
 	"net"
 	"net/netip"
-	"encoding/json"
 	"os"
 	"path/filepath"
 	"runtime"
@@ -1540,7 +1540,12 @@ func (x *c05Run) run() {
 		// both sides closed: wait for the remaining EOF (not judged, only observed)
 		if x.wait(func() bool { return closer.eofAt.Load() != 0 || closer.errAt.Load() != 0 }, 4*time.Second) && closer.eofAt.Load() != 0 {
 			m.Count("final_eof_seen", 1)
-			if closer.recvd.Load() != other.out.total {
+			if e, own := closer.eofAt.Load(), closer.cwAt.Load(); closer.recvd.Load() != other.out.total && own != 0 && e-own >= int64(5*time.Second) {
+				// the reader shut down its own write side >= 5 s before this EOF: the relay's bounded grace
+				// period for the opposite direction may have run out while the sender was still writing
+				// (a stalled machine); the statement allows that cut - like shortAtEOF, not judged
+				m.Count("grace_final_short_after_5s_unjudged", 1)
+			} else if closer.recvd.Load() != other.out.total {
 				x.violate(fmt.Sprintf("stream-mismatch/%s/%s/short/at-eof", map[string]string{"l2r": "r2l", "r2l": "l2r"}[dir], x.comp.outcome),
 					fmt.Sprintf("EOF delivered after %d of %d bytes", closer.recvd.Load(), other.out.total), nil)
 			}
